@@ -69,6 +69,8 @@ def run(ctx: Ctx):
     ctx.guarded(deciding_entry, ctx)
     res.rule("DIV-GUARDED", "in the SVD methods listed in SVD_FUNS and in make_svd_non_negative every division has a denominator that is strictly positive: by construction (a value clipped / floored at a positive constant or machine epsilon, its square root, reshapes of it) or because the division sits under `if P > Q` where the denominator is a factor of the product P of norms and Q >= 0: singular vectors / NNDSVD columns obtained by dividing by computed singular values or norms stay finite for exactly singular input and one-signed singular vectors", floor=6)
     ctx.guarded(div_guarded, ctx)
+    res.rule("BRANCH-AGREE", "randomized_svd: its two routes (transposed and direct) are the same algorithm on A^T and A; every routine called on both routes (range finder, reduced SVD) gets the same options on both -- sketch size with oversampling, power iterations, seed, number of singular triplets -- only the matrix operand differs", floor=2)
+    ctx.guarded(branch_agree, ctx)
     res.rule("NONNEG-OPTION", "sign analysis ({non-negative, any} abstract interpretation, the domain of C10): for arbitrary (signed) data and arbitrary singular vectors, make_svd_non_negative returns two entrywise non-negative factors under each of its variants, and svd_interface with the non-negative option returns exactly those", floor=4)
     ctx.guarded(nonneg_option, ctx)
 
@@ -396,6 +398,62 @@ def div_guarded(ctx: Ctx):
                     ctx.finding("DIV-GUARDED", f, den, f"{f.name} divides by `{src(den)[:60]}` = `{src(full)[:100]}`, which is not bounded away from zero: for an exactly singular input (a zero eigenvalue / singular value) the quotient is 0/0 or x/0 and the returned singular vectors contain NaN / inf instead of an orthonormal completion", construct=f"{f.name}: / {src(den)[:50]} unguarded")
     if n == 0:
         raise AnalysisError("DIV-GUARDED: no division left in the SVD methods; the rule has nothing to decide (re-read symeig_svd)")
+
+
+# ---------------------------------------------------------------------------------
+# BRANCH-AGREE: sibling routes of one algorithm call their helpers with the same options
+# ---------------------------------------------------------------------------------
+def branch_agree(ctx: Ctx):
+    from ..model import bind_call
+
+    res = ctx.res
+    f = ctx.repo.func(S + "randomized_svd")
+    def has_rf(block):
+        return any(isinstance(c, ast.Call) and _cn(c) == "randomized_range_finder" for b in block for c in ast.walk(b))
+
+    routes = None
+    body = f.node.body
+    for i, st in enumerate(body):
+        if not isinstance(st, ast.If):
+            continue
+        if st.orelse and has_rf(st.body) and has_rf(st.orelse):
+            routes = (st.body, st.orelse)
+        elif not st.orelse and st.body and isinstance(st.body[-1], ast.Return) and has_rf(st.body) and has_rf(body[i + 1 :]):
+            routes = (st.body, body[i + 1 :])  # guard clause: the other route is what follows
+    if routes is None:
+        raise AnalysisError("BRANCH-AGREE: randomized_svd no longer has a transposed and a direct route that both call randomized_range_finder; cannot decide")
+
+    def calls(block):
+        out = {}
+        for b in block:
+            for c in ast.walk(b):
+                if isinstance(c, ast.Call):
+                    ct = ctx.repo.resolve_call(f, f.module, c)
+                    if ct.kind == "repo" and len(ct.funcs) == 1 and ct.funcs[0].module is f.module:
+                        out.setdefault(ct.funcs[0].name, []).append((c, ct))
+        return out
+
+    ca, cb = calls(routes[0]), calls(routes[1])
+    n = 0
+    for name in sorted(set(ca) & set(cb)):
+        if len(ca[name]) != 1 or len(cb[name]) != 1:
+            continue
+        (c1, ct1), (c2, ct2) = ca[name][0], cb[name][0]
+        g = ct1.funcs[0]
+        b1, b2 = bind_call(c1, g, ct1.bound), bind_call(c2, g, ct2.bound)
+        first = g.pos_params[0] if g.pos_params else None
+        for p_ in g.all_params:
+            if p_ == first:
+                continue
+            a1, a2 = b1.params.get(p_), b2.params.get(p_)
+            s1, s2 = (src(a1) if a1 is not None else "<default>"), (src(a2) if a2 is not None else "<default>")
+            n += 1
+            ok = s1 == s2
+            res.instance("BRANCH-AGREE", f"randomized_svd: {name}({p_}=...)", sample={"transposed_route": s1, "direct_route": s2, "ok": ok})
+            if not ok:
+                ctx.finding("BRANCH-AGREE", f, c1, f"randomized_svd calls {name} with {p_}={s1} on one route and {p_}={s2} on the other: the two routes are the same algorithm applied to A^T and A, so the route taken (decided by the matrix shape) changes the accuracy / the result for the same request", construct=f"randomized_svd: {name} {p_}: {s1} vs {s2}")
+    if n == 0:
+        raise AnalysisError("BRANCH-AGREE: no routine is called on both routes of randomized_svd; cannot decide")
 
 
 def nonneg_option(ctx: Ctx):
